@@ -185,3 +185,18 @@ Lemma C01_D44_witness :
   placement_ok (d44_text ++ B "alert(1)//") [(length d44_text, 10%nat)] = true /\
   same_structure (d44_text ++ B "zq") (d44_text ++ B "alert(1)//") = true.
 Proof. vm_compute. repeat split; reflexivity. Qed.
+
+(* ------------------------------------------------------------------ D45: a special element's name that runs on for the tokenizer
+   <style[NBSP]> : the engine is in the body of the special element style, the tokenizer has emitted
+   the start tag of an element whose name is style followed by the two bytes of U+00A0 and is in the
+   data state, where the comment opener starts a comment. *)
+Definition d45_text : bytes := B "<style" ++ [194; 160] ++ B ">".
+
+Lemma C01_D45_witness :
+  (match escape_text false ctx0 d45_text with EOk c _ _ => Some (c_state c, c_elem c) | EPanic => None end)
+  = Some (StSpecialElementBody, B "style") /\
+  r_tokens (html_tokenize SData d45_text) = [StartTag (B "style" ++ [194; 160]) [] false] /\
+  tok_final d45_text = SData /\
+  no_comments (d45_text ++ B "<!--x--></style>") = false /\
+  finding_D45 d45_text = true /\ finding_D45 (B "<style >") = false /\ finding_D45 (B "<style-x>") = false.
+Proof. vm_compute. repeat split; reflexivity. Qed.
